@@ -207,7 +207,7 @@ fn run_jobs(sb: &Sandbox, rep: &mut Report, sh: &Shared, seeds: Vec<Vec<u8>>, jo
         let batch = Batch { seeds: seeds.clone(), inputs: jobs.iter().map(|j| Input { parser: j.parser, aux: j.aux, seed: j.seed, edits: j.edits.clone() }).collect() };
         let mut st = Stats::default();
         let outs = match sb.run(&batch, &mut st) { Ok(o) => o, Err(e) => harness_error(&format!("sandbox: {e} (workload {} case {})", rep.cur.0, rep.cur.1)) };
-        { let mut g = sh.stats.lock().unwrap(); g.spawns += st.spawns; g.restarts_after_death += st.restarts_after_death; g.stalls += st.stalls; g.isolated_reruns += st.isolated_reruns; }
+        { let mut g = sh.stats.lock().unwrap(); g.spawns += st.spawns; g.restarts_after_death += st.restarts_after_death; g.stalls += st.stalls; g.isolated_reruns += st.isolated_reruns; g.startup_stalls += st.startup_stalls; }
         for (k, (j, o)) in jobs.iter().zip(&outs).enumerate() {
             judge(rep, sh, &Item { parser: j.parser, aux: j.aux, seed: &seeds[j.seed as usize], edits: &j.edits, info: &j.info, source, index: base + k, recipe: j.recipe.clone() }, o);
         }
@@ -443,6 +443,7 @@ fn main() {
     rep.add("sandbox.child_restarts_after_a_death", st.restarts_after_death);
     rep.add("sandbox.stalls", st.stalls);
     rep.add("sandbox.isolated_reruns", st.isolated_reruns);
+    rep.add("sandbox.stalls_without_an_open_input (machine-level; retried)", st.startup_stalls);
     drop(st);
     let mut meta = Meta::new("fault_enumeration",
         "an input = one seed (generated class via cf::gen+cf::emit, javac corpus class, Tiny v2 / tiny-diff / Enigma / nests text emitted from maps::gen models, descriptor string) with ONE mutation, \
